@@ -708,6 +708,14 @@ func returnFacts(h *ssa.Function, key string, sel func(*ssa.Return) bool) []Fact
 		for _, f := range factsAt(r.Block()) {
 			set[factKey(f)] = f
 		}
+		// a bool helper returning a non-constant value: on this return the value itself equals the selected result
+		if (key == "true" || key == "false") && len(r.Results) == 1 {
+			if _, isC := constOf(returnedValue(r, 0)); !isC {
+				for _, f := range normFact(Fact{V: returnedValue(r, 0), True: key == "true"}) {
+					set[factKey(f)] = f
+				}
+			}
+		}
 		if common == nil {
 			common = set
 		} else {
@@ -769,7 +777,7 @@ func postFacts(f Fact) []Fact {
 				return false
 			}
 			k, isC := constOf(returnedValue(r, 0))
-			return isC && k.ExactString() == want
+			return !isC || k.ExactString() == want
 		}
 	}
 	if call == nil {
